@@ -4,6 +4,7 @@ import (
 	"encoding/hex"
 	"encoding/json"
 	"fmt"
+	"hash/fnv"
 	"math/rand"
 	"runtime"
 	"sort"
@@ -14,6 +15,7 @@ import (
 
 	"google.golang.org/protobuf/encoding/protojson"
 	"google.golang.org/protobuf/encoding/prototext"
+	"google.golang.org/protobuf/encoding/protowire"
 	lazyopaque "google.golang.org/protobuf/internal/testprotos/lazy/lazy_opaque"
 	edopaque "google.golang.org/protobuf/internal/testprotos/testeditions/testeditions_opaque"
 	vh "google.golang.org/protobuf/internal/zz_verif_vh"
@@ -28,6 +30,7 @@ import (
 type kind struct {
 	name  string
 	build func(r *rand.Rand) proto.Message                          // random value with a lazy chain
+	multi func(r *rand.Rand) []byte                                 // wire with the lazy field in several non-contiguous occurrences
 	zero  func() proto.Message                                      // empty message to decode into
 	chain func(m proto.Message) (ptrs []proto.Message, vals string) // generated getters along the chain
 	has   func(m proto.Message) string                              // generated Has* along the chain
@@ -95,15 +98,165 @@ func buildAll(r *rand.Rand, depth int) *edopaque.TestAllTypes {
 	return m
 }
 
+// ---------------------------------------------------------------------------- multi-occurrence wires
+
+func mustMarshal(m proto.Message) []byte {
+	b, err := proto.MarshalOptions{Deterministic: true, AllowPartial: true}.Marshal(m)
+	if err != nil {
+		panic(err)
+	}
+	return b
+}
+
+func bigString(r *rand.Rand, n int) string {
+	b := make([]byte, n)
+	for i := range b {
+		b[i] = byte('a' + (i+n)%26)
+	}
+	return string(b)
+}
+
+func occurrences(r *rand.Rand) int {
+	return []int{2, 2, 2, 3, 3, 4, 6, 12, 30}[r.Intn(9)]
+}
+
+func bigCount(r *rand.Rand) int {
+	return []int{50, 1000, 2000, 4000, 4000, 8000}[r.Intn(6)]
+}
+
+// multiNode: the lazy field `nested` (99) of a Node occurs several times on the wire, separated by
+// other fields of the parent (so the lazy index gets one entry per occurrence); the first
+// occurrence is small, later ones are large, so that merging them takes a while.
+func multiNode(r *rand.Rand) []byte {
+	var wire []byte
+	n := occurrences(r)
+	chainAt := r.Intn(n)
+	for j := 0; j < n; j++ {
+		piece := &lazyopaque.Node{}
+		switch {
+		case j == 0:
+			piece.SetInt32(int32(1 + r.Intn(1000)))
+		case j%3 == 1:
+			piece.SetString(bigString(r, bigCount(r)*4))
+			piece.SetSint64(int64(j))
+		case j%3 == 2:
+			piece.SetBytes([]byte(bigString(r, bigCount(r)*2)))
+			piece.SetUint32(uint32(j))
+		default:
+			piece.SetDouble(float64(j))
+			piece.SetFixed64(r.Uint64())
+		}
+		if j == chainAt && r.Intn(2) == 0 {
+			piece.SetNested(buildNode(r, r.Intn(3)))
+		}
+		parent := &lazyopaque.Node{}
+		parent.SetNested(piece)
+		wire = append(wire, mustMarshal(parent)...)
+		sep := &lazyopaque.Node{}
+		if r.Intn(2) == 0 {
+			sep.SetInt64(int64(r.Intn(100)))
+		} else {
+			sep.SetString(randString(r))
+		}
+		wire = append(wire, mustMarshal(sep)...)
+	}
+	return wire
+}
+
+// multiAll: optional_lazy_nested_message (24) of TestAllTypes in several non-contiguous pieces:
+// {a}, then {corecursive{repeated_int32 × thousands}}, {corecursive{repeated_string …}}, …
+func multiAll(r *rand.Rand) []byte {
+	var wire []byte
+	n := occurrences(r)
+	chainAt := 1 + r.Intn(n)
+	for j := 0; j < n; j++ {
+		nm := &edopaque.TestAllTypes_NestedMessage{}
+		co := &edopaque.TestAllTypes{}
+		switch {
+		case j == 0:
+			nm.SetA(int32(1 + r.Intn(1000)))
+		case j%3 == 1:
+			rep := make([]int32, bigCount(r))
+			for i := range rep {
+				rep[i] = int32(i + j)
+			}
+			co.SetRepeatedInt32(rep)
+			co.SetOptionalInt32(int32(7 + j))
+			nm.SetCorecursive(co)
+		case j%3 == 2:
+			strs := make([]string, 1+bigCount(r)/20)
+			for i := range strs {
+				strs[i] = fmt.Sprint("s", i, j)
+			}
+			co.SetRepeatedString(strs)
+			nm.SetCorecursive(co)
+		default:
+			co.SetOptionalBytes([]byte(bigString(r, bigCount(r))))
+			nm.SetCorecursive(co)
+			nm.SetA(int32(j))
+		}
+		if j == chainAt && r.Intn(2) == 0 {
+			co.SetOptionalLazyNestedMessage(buildAll(r, 1).GetOptionalLazyNestedMessage())
+			nm.SetCorecursive(co)
+		}
+		parent := &edopaque.TestAllTypes{}
+		parent.SetOptionalLazyNestedMessage(nm)
+		wire = append(wire, mustMarshal(parent)...)
+		sep := &edopaque.TestAllTypes{}
+		if r.Intn(2) == 0 {
+			sep.SetOptionalInt64(int64(5 + r.Intn(100)))
+		} else {
+			sep.SetOptionalString(randString(r))
+		}
+		wire = append(wire, mustMarshal(sep)...)
+	}
+	return wire
+}
+
+// multiReq: TestRequiredLazy has no other field; the occurrences of optional_lazy_message (1) are
+// separated by an unknown field (number 1000).
+func multiReq(r *rand.Rand) []byte {
+	var wire []byte
+	n := occurrences(r)
+	for j := 0; j < n; j++ {
+		req := &edopaque.TestRequired{}
+		req.SetRequiredField(int32(r.Uint32()))
+		parent := &edopaque.TestRequiredLazy{}
+		parent.SetOptionalLazyMessage(req)
+		wire = append(wire, mustMarshal(parent)...)
+		wire = protowire.AppendVarint(protowire.AppendTag(wire, 1000, protowire.VarintType), uint64(j))
+	}
+	return wire
+}
+
+// short abbreviates long content to length + checksum (readers compare content, not only identity).
+func short(b []byte) string {
+	if len(b) <= 24 {
+		return fmt.Sprintf("%x", b)
+	}
+	h := fnv.New64a()
+	h.Write(b)
+	return fmt.Sprintf("#%d:%x", len(b), h.Sum64())
+}
+
+func sumInts(xs []int32) string {
+	var s int64
+	for i, x := range xs {
+		s += int64(x) * int64(i+1)
+	}
+	return fmt.Sprintf("[%d:%d]", len(xs), s)
+}
+
 var kinds = []kind{
 	{
 		name:  "lazy_opaque.Node",
 		build: func(r *rand.Rand) proto.Message { return buildNode(r, 1+r.Intn(6)) },
+		multi: multiNode,
 		zero:  func() proto.Message { return &lazyopaque.Node{} },
 		chain: func(m proto.Message) (ptrs []proto.Message, vals string) {
 			var sb strings.Builder
 			for n := m.(*lazyopaque.Node); ; {
-				fmt.Fprintf(&sb, "%d/%d/%q/%x/%v/%d;", n.GetInt32(), n.GetInt64(), n.GetString(), n.GetBytes(), n.GetDouble(), n.GetFixed64())
+				fmt.Fprintf(&sb, "%d/%d/%s/%s/%v/%d/%d/%d;", n.GetInt32(), n.GetInt64(), short([]byte(n.GetString())), short(n.GetBytes()), n.GetDouble(), n.GetFixed64(), n.GetSint64(), n.GetUint32())
 				next := n.GetNested()
 				if next == nil {
 					break
@@ -125,11 +278,13 @@ var kinds = []kind{
 	{
 		name:  "testeditions_opaque.TestAllTypes",
 		build: func(r *rand.Rand) proto.Message { return buildAll(r, 1+r.Intn(6)) },
+		multi: multiAll,
 		zero:  func() proto.Message { return &edopaque.TestAllTypes{} },
 		chain: func(m proto.Message) (ptrs []proto.Message, vals string) {
 			var sb strings.Builder
 			for t := m.(*edopaque.TestAllTypes); t != nil; {
-				fmt.Fprintf(&sb, "%d/%q/%v/%v;", t.GetOptionalInt32(), t.GetOptionalString(), t.GetRepeatedInt32(), t.GetMapInt32Int32())
+				fmt.Fprintf(&sb, "%d/%q/%s/%v/%d/%s/%d;", t.GetOptionalInt32(), t.GetOptionalString(), sumInts(t.GetRepeatedInt32()), t.GetMapInt32Int32(),
+					len(t.GetRepeatedString()), short(t.GetOptionalBytes()), t.GetOptionalInt64())
 				nm := t.GetOptionalLazyNestedMessage()
 				if nm == nil {
 					break
@@ -167,7 +322,8 @@ var kinds = []kind{
 			m.SetOptionalLazyMessage(req)
 			return m
 		},
-		zero: func() proto.Message { return &edopaque.TestRequiredLazy{} },
+		multi: multiReq,
+		zero:  func() proto.Message { return &edopaque.TestRequiredLazy{} },
 		chain: func(m proto.Message) (ptrs []proto.Message, vals string) {
 			req := m.(*edopaque.TestRequiredLazy).GetOptionalLazyMessage()
 			if req == nil {
@@ -308,6 +464,7 @@ type roundInput struct {
 	N     int     `json:"goroutines"`
 	Ops   [][]int `json:"ops"`
 	Procs int     `json:"gomaxprocs"`
+	Shape string  `json:"shape,omitempty"`
 	What  string  `json:"what,omitempty"`
 	Tries int     `json:"tries,omitempty"`
 }
@@ -346,16 +503,21 @@ func kindByName(n string) *kind {
 	return nil
 }
 
+// genWire: half of the wires are one canonical encoding of a random message (every lazy field occurs
+// once), the other half have the top-level lazy field in several non-contiguous occurrences.
+func genWire(r *rand.Rand, k *kind) (wire []byte, shape string) {
+	if r.Intn(2) == 0 {
+		return mustMarshal(k.build(r)), "single"
+	}
+	return k.multi(r), "multi"
+}
+
 func genRound(r *rand.Rand) roundInput {
 	k := &kinds[r.Intn(len(kinds))]
-	m := k.build(r)
-	wire, err := proto.MarshalOptions{Deterministic: true, AllowPartial: true}.Marshal(m)
-	if err != nil {
-		panic(err)
-	}
+	wire, shape := genWire(r, k)
 	ns := []int{2, 2, 3, 4, 4, 8, 8, 16, 16, 32, 64}
 	n := ns[r.Intn(len(ns))]
-	in := roundInput{Kind: k.name, Wire: hex.EncodeToString(wire), N: n}
+	in := roundInput{Kind: k.name, Wire: hex.EncodeToString(wire), N: n, Shape: shape}
 	mode := r.Intn(4)
 	for g := 0; g < n; g++ {
 		var ops []int
@@ -508,6 +670,7 @@ func runRound(in roundInput, s sink) bool {
 	first := in.Ops[0][0]
 	s.evalCase(fmt.Sprintf("%s|%s|%d|%v", in.Kind, in.Wire, in.N, in.Ops), len(refPtrs) > 0)
 	s.hist("kind:" + in.Kind)
+	s.hist("wire:" + in.Shape + fmt.Sprintf(":%dKB", len(wire)/4096*4))
 	s.hist(fmt.Sprintf("goroutines:%d", in.N))
 	s.hist(fmt.Sprintf("depth:%d", len(refPtrs)))
 	s.hist("first-op:" + opNames[first])
@@ -529,6 +692,9 @@ func runC18(c *C) {
 		for i := 0; i < 300 && runRound(in, s); i++ {
 		}
 	}
+	// recorded executions first (their verdicts are deterministic for a given tree), then the schedule-dependent rounds
+	v := buildVariants(c)
+	traceStageC18(c, v)
 	rounds := c.N(800, 40000)
 	for i := 0; i < rounds && !c.Failed(); i++ {
 		in := genRound(c.Rand)
@@ -547,7 +713,7 @@ func runC18(c *C) {
 	if c.HasModel() {
 		facts := c.Ask("facts")
 		c.R.Notes = append(c.R.Notes, "protocol variants selected from the extracted shape facts: "+facts)
-		c.Compare("model variant for the lazy protocol", "facts", "lazy=cas/reload", strings.Fields(facts + " ")[0])
+		c.Compare("model variant for the lazy protocol", "facts", "lazy=cas/reload/afterAll", strings.Fields(facts + " ")[0])
 		for _, n := range []int{1, 2, 3, 8, 64} {
 			obs := strings.TrimSpace(strings.Repeat("0 ", n))
 			c.Compare("observations of n readers (all the same instance) are a run of the model", "lazyobs 1 "+obs, "consistent", c.Ask("lazyobs 1 %s", obs))
@@ -555,7 +721,10 @@ func runC18(c *C) {
 		c.Compare("absent field: every reader returns nil", "lazyobs 0 nil nil nil", "consistent", c.Ask("lazyobs 0 nil nil nil"))
 	}
 
-	v := buildVariants(c)
+	raceStageC18(c, v)
+}
+
+func raceStageC18(c *C, v variants) {
 	// the same rounds under the race detector
 	if v.Race == "" {
 		c.R.Notes = append(c.R.Notes, "race detector run skipped: "+v.RaceError)
@@ -578,6 +747,9 @@ func runC18(c *C) {
 			c.R.Histogram["race:rounds"] += res.Rounds
 		}
 	}
+}
+
+func traceStageC18(c *C, v variants) {
 	// recorded event traces through the model's acceptsTrace (needs the hook package in the tree)
 	if v.Hooks == "" {
 		why := "the event hooks (fixes/hook-conc.diff: internal/verifhook + calls in lazyUnmarshal) are not in this tree"
@@ -608,6 +780,13 @@ func runC18(c *C) {
 				}
 			}
 			c.R.Notes = append(c.R.Notes, fmt.Sprintf("trace validation: %d recorded cell histories (lazyUnmarshal events of real runs) accepted by the model", acc))
+			if res.Entry {
+				c.R.Notes = append(c.R.Notes, "the tree has verifhook.LazyEntry: every merged index entry is recorded and the model requires entries 0..n-1 before the LazyDecoded record and the CAS")
+				c.Hist("trace:with-LazyEntry")
+			} else {
+				c.R.Notes = append(c.R.Notes, "verifhook.LazyEntry (fixes/hook-conc-entry.diff) is not in this tree: index entries are not recorded; a LazyDecoded record is taken as 'all entries merged'")
+				c.Hist("trace:without-LazyEntry")
+			}
 			for k, n := range res.Hist {
 				c.R.Histogram[k] += n
 			}
